@@ -656,7 +656,14 @@ class LSMTree(Entity):
             for sst in overlapping:
                 if sst in self._levels[target_level]:
                     self._levels[target_level].remove(sst)
-            self._levels[target_level].append(new_sst)
+            if target_level == source_level:
+                # Merge within the deepest level (always the case when
+                # max_levels == 1): whatever is left in it was flushed during
+                # the suspension above and is newer than the merged inputs,
+                # so the merged table goes in front of it, not behind it.
+                self._levels[target_level].insert(0, new_sst)
+            else:
+                self._levels[target_level].append(new_sst)
 
         self._total_compactions += 1
         logger.debug(
